@@ -583,3 +583,6 @@ func IsCellLoad(v ssa.Value) bool {
 	_, isAlloc := u.X.(*ssa.Alloc)
 	return isAlloc
 }
+
+// FieldOfAddr returns the struct field a FieldAddr selects.
+func FieldOfAddr(fa *ssa.FieldAddr) *types.Var { return fieldOfAddr(fa) }
